@@ -665,7 +665,9 @@ func (c *Conn) heartBeat(ctx context.Context) {
 		case error:
 			// TODO: should we do something here?
 		default:
-			panic(fmt.Sprintf("gocql: unknown frame in response to options: %T", resp))
+			// the connection is out of step with the server: it can not be used any further
+			c.closeWithError(NewErrProtocol("gocql: unknown frame in response to options: %T", resp))
+			return
 		}
 	}
 }
